@@ -12,7 +12,7 @@ PROP = "C15"
 LEVEL = "exploration"
 RULE = (
     "complete product: scale method in {std,iqr,mad,doublemad,diffcov,biweight,qn,sn,gapper,norm} x loc in {median,mean,norm} x axis in "
-    "{None,0,1} x shapes {(16,),(8,12),(9,8)} x data class {normal, ties, constant, outlier, constant-lane, majority-ties} x affine maps a in "
+    "{None,0,1,-1} x shapes {(16,),(8,12),(9,8)} x data class {normal, ties, constant, outlier, constant-lane, majority-ties} x affine maps a in "
     "{-100,-3,-0.01,0.01,2,100}, b in {0,-7|a|,50|a|}: (i) per-axis estimate == the 1-D estimator applied lane by lane, result broadcasts "
     "against the input; (ii) scale(a x+b) == |a| scale(x), z(a x+b) == sign(a) z(x) on lanes with a safely non-zero scale; (iii) all z-scores "
     "finite. Non-trivial = every case with axis handling (2-D) or a non-identity map"
@@ -27,7 +27,7 @@ REQUIRED_OUTCOMES = ["axis/ok", "equivariance/ok", "finite/ok", "finite/zero_sca
 SCALES = ["std", "iqr", "mad", "doublemad", "diffcov", "biweight", "qn", "sn", "gapper"]
 LOCS = ["median", "mean"]
 SHAPES = [(16,), (8, 12), (9, 8)]
-CLASSES = ["normal", "ties", "constant", "outlier", "const_lane", "majority_ties"]
+CLASSES = ["normal", "ties", "constant", "outlier", "const_lane", "majority_ties", "tiny_scale"]
 AS = [-100.0, -3.0, -0.01, 0.01, 2.0, 100.0]
 BS = [0.0, -7.0, 50.0]
 
@@ -58,6 +58,9 @@ def _data(cls, shape, seed):
         x = rng.normal(0.0, 1.0, shape)
         x.flat[3] = 1e4
         x.flat[x.size - 2] = -3e3
+    elif cls == "tiny_scale":
+        # legitimately small scale (1e-4 around 0.5): must NOT be treated as zero, also after scaling by 1e-2
+        x = 0.5 + rng.normal(0.0, 1e-4, shape)
     elif cls == "majority_ties":
         # > 50% of every lane equals the lane median (zero MAD -> the mean-absolute-deviation fallback), lanes differ in spread
         x = rng.normal(0.0, 1.0, shape)
@@ -84,6 +87,7 @@ def _lanes(x, axis):
     if axis is None or x.ndim == 1:
         yield (Ellipsis,), x.ravel()
         return
+    axis = axis % x.ndim
     other = 1 - axis
     for i in range(x.shape[other]):
         sl = [slice(None), slice(None)]
@@ -102,9 +106,9 @@ def run_shard(shard: dict, ctx, res, only=None) -> None:
     sm, cls = shard["scale"], shard["cls"]
     for shape in SHAPES:
         x = _data(cls, shape, ctx.seed + 1000 * int(shard.get("variant", 0)))
-        axes = [None] if len(shape) == 1 else [None, 0, 1]
+        axes = [None, 0, 1, -1]
         if len(shape) == 1:
-            axes = [None, 0]
+            axes = [None, 0, -1]
         for axis in axes:
             for lm in LOCS + ["norm"]:
                 if only is not None and [list(shape), axis, lm] != only[:3]:
@@ -176,7 +180,9 @@ def run_shard(shard: dict, ctx, res, only=None) -> None:
                 if not safe.any():
                     continue
                 # ---------------- (ii) affine equivariance
-                for a, bk in itertools.product(AS, BS):
+                # the tiny-scale class probes the zero-scale guard; an offset of 50|a| on a spread of 1e-4|a| is beyond float32 resolution
+                # (a precision question, not an equivariance one), so that class is only scaled
+                for a, bk in itertools.product(AS, BS if cls != "tiny_scale" else [0.0]):
                     if only is not None and len(only) > 3 and [a, bk] != only[3]:
                         continue
                     res.evaluations += 1
@@ -196,7 +202,12 @@ def run_shard(shard: dict, ctx, res, only=None) -> None:
                         # 'norm' is by definition not equivariant (fixed location 0 / scale 1): finiteness only
                         res.outcome("equivariance/na_norm")
                         continue
-                    s_ok = np.allclose(sc2[safe], abs(a) * np.broadcast_to(sc, x.shape)[safe], rtol=1e-9, atol=0)
+                    # float64 error model for the scale: cancellation in a*x+b costs eps64*|y|/(|a|*spread) relative to the spread,
+                    # amplified by the estimator's conditioning (spread/scale)^2
+                    sc_b = np.broadcast_to(sc, x.shape)
+                    spread_b = np.broadcast_to(np.asarray(spread, dtype=np.float64), x.shape) if sc is not None else 1.0
+                    rt = 1e-9 + 64 * float(np.finfo(np.float64).eps) * np.max(np.abs(y)) / (abs(a) * np.where(safe, spread_b, 1.0)) * (np.where(safe, spread_b, 1.0) / np.where(safe, sc_b, 1.0)) ** 2
+                    s_ok = bool(np.all(np.abs(sc2 - abs(a) * sc_b)[safe] <= (rt * abs(a) * sc_b)[safe]))
                     if not s_ok:
                         k = int(np.argmax(np.abs(sc2 - abs(a) * np.broadcast_to(sc, x.shape)) * safe))
                         res.violation({"site": "stats.estimate_scale", "symptom": "scale(a*x+b) != |a|*scale(x)", "scale": sm, "negative_a": a < 0}, case,
@@ -209,7 +220,7 @@ def run_shard(shard: dict, ctx, res, only=None) -> None:
                     scx = np.where(safe, np.broadcast_to(sc, x.shape), 1.0)
                     spr = np.where(safe, spread if sc is not None else 1.0, 1.0)
                     rel_in = float(np.finfo(np.float32).eps) * np.max(np.abs(y)) / (abs(a) * spr)
-                    tol_el = 1e-4 * np.maximum(1.0, np.abs(z)) + 16 * rel_in * (spr / scx) + 16 * np.abs(z) * rel_in * (spr / scx) ** 2
+                    tol_el = 1e-4 * np.maximum(1.0, np.abs(z)) + 64 * rel_in * (spr / scx) + 64 * np.abs(z) * rel_in * (spr / scx) ** 2
                     zdev = float(np.max((np.abs(z2 - np.sign(a) * z) / tol_el)[safe]))
                     res.maximum("zscore_equivariance_dev_over_tol", zdev)
                     if zdev > 1:
